@@ -45,6 +45,13 @@ type c12Params struct {
 	// Repair runs with the double check on: it has to fail the same way for
 	// every goroutine option.
 	Bogus bool `json:"bogus,omitempty"`
+	// Conflict: a second, larger recovery file (sorting before the real ones)
+	// stores block 0 again with a different payload under a valid hash. Which
+	// of the two copies is used must not depend on the goroutine option.
+	Conflict bool `json:"conflict,omitempty"`
+	// BigFiles: inputs of 17-40 KiB (anything done per file in parallel for
+	// large files only).
+	BigFiles bool `json:"big_files,omitempty"`
 }
 
 func init() {
@@ -117,7 +124,7 @@ func (c *c12) Cases(tier string, seed int64) []core.Case {
 		cs = append(cs, cse)
 	}
 	for i := 0; i < 4; i++ {
-		cse := core.MkCase(fmt.Sprintf("race-create-%d", i), c12Params{Mode: "create", Seed: r.Int63(), RaceMode: true, Dup: map[bool]string{true: "yes"}[i%2 == 0]})
+		cse := core.MkCase(fmt.Sprintf("race-create-%d", i), c12Params{Mode: "create", Seed: r.Int63(), RaceMode: true, Dup: map[bool]string{true: "yes"}[i%2 == 0], BigFiles: i == 1})
 		cse.Race = true
 		cs = append(cs, cse)
 	}
@@ -126,7 +133,7 @@ func (c *c12) Cases(tier string, seed int64) []core.Case {
 		n = 60
 	}
 	for i := 0; i < n; i++ {
-		cs = append(cs, core.MkCase(fmt.Sprintf("create-%d", i), c12Params{Mode: "create", Seed: r.Int63(), Dup: map[bool]string{true: "yes"}[i%4 == 0], Bogus: i%4 == 2}))
+		cs = append(cs, core.MkCase(fmt.Sprintf("create-%d", i), c12Params{Mode: "create", Seed: r.Int63(), Dup: map[bool]string{true: "yes"}[i%4 == 0], Bogus: i%4 == 2, Conflict: i%4 == 3, BigFiles: i%6 == 1}))
 	}
 	cs = append(cs, core.MkCase("cores-unknown", c12Params{Mode: "cores", Seed: r.Int63()}))
 	return cs
@@ -474,12 +481,22 @@ func (c *c12) runCreate(r *core.R, p c12Params) {
 		nf = 3 + rng.Intn(3)
 	}
 	set := scen.Set{SliceSize: slice, Blocks: 1 + rng.Intn(6)}
-	if p.Bogus {
+	if p.Bogus || p.Conflict {
 		set.Blocks = 12
+	}
+	if p.BigFiles {
+		nf = 2 + rng.Intn(3)
 	}
 	for i := 0; i < nf; i++ {
 		n := scen.SizeAround(rng, slice, false)
+		if p.BigFiles {
+			n = 17000 + rng.Intn(24000)
+		}
 		set.Files = append(set.Files, scen.File{Name: scen.GenName(rng, i, true, true), Data: scen.GenData(rng, "random", n, slice)})
+	}
+	if p.BigFiles && slice < 512 {
+		slice = 2000
+		set.SliceSize = slice
 	}
 	if (p.Seed%2 == 0 || p.Dup == "yes") && nf >= 2 {
 		// identical slices in different files: scanning them touches the same
@@ -531,13 +548,16 @@ func (c *c12) runCreate(r *core.R, p c12Params) {
 		if p.Bogus {
 			c12SpoilHighestBlock(dir)
 		}
+		if p.Conflict {
+			c12ConflictingBlock(dir)
+		}
 		// Damage: remove the first file and repair with this g.
 		os.Remove(paths[0])
 		c12rec.begin(uint64(p.Seed) ^ uint64(g) ^ 77)
 		var rerr error
 		var res par2.RepairResult
 		if pi := core.Protect(func() {
-			res, rerr = par2.Repair(filepath.Join(dir, "set.par2"), par2.RepairOptions{NumGoroutines: g, DoubleCheck: g%2 == 0 || p.Bogus})
+			res, rerr = par2.Repair(filepath.Join(dir, "set.par2"), par2.RepairOptions{NumGoroutines: g, DoubleCheck: (g%2 == 0 || p.Bogus) && !p.Conflict})
 		}); pi != nil {
 			r.Violate("repair-panic|"+pi.Frame, "Repair g=%d: %s", g, pi.Msg)
 			return
@@ -563,6 +583,57 @@ func (c *c12) runCreate(r *core.R, p c12Params) {
 }
 
 var refRepairKey string
+
+// c12ConflictingBlock writes "set.aa-other.par2": the critical packets, a
+// copy of the recovery packet with the lowest exponent whose payload is
+// altered (fresh hash), and padding packets that make the file several times
+// larger than any real recovery file.
+func c12ConflictingBlock(dir string) {
+	ents, _ := os.ReadDir(dir)
+	var crit []par2rw.Packet
+	var low *par2rw.Packet
+	lowExp := -1
+	for _, e := range ents {
+		if !strings.HasSuffix(e.Name(), ".par2") {
+			continue
+		}
+		b, err := os.ReadFile(filepath.Join(dir, e.Name()))
+		if err != nil {
+			continue
+		}
+		pk, err := par2rw.ParseStrict(b)
+		if err != nil {
+			continue
+		}
+		for i := range pk {
+			switch pk[i].Type {
+			case par2rw.TypeRecv:
+				if rv, err := par2rw.DecodeRecv(pk[i].Body); err == nil && (lowExp < 0 || int(rv.Exp) < lowExp) {
+					lowExp = int(rv.Exp)
+					q := pk[i]
+					low = &q
+				}
+			case par2rw.TypeMain, par2rw.TypeFileDesc, par2rw.TypeIFSC, par2rw.TypeCreator:
+				if e.Name() == "set.par2" {
+					crit = append(crit, pk[i])
+				}
+			}
+		}
+	}
+	if low == nil || len(crit) == 0 {
+		return
+	}
+	body := append([]byte(nil), low.Body...)
+	body[len(body)-1] ^= 0x77
+	out := append([]par2rw.Packet{}, crit...)
+	out = append(out, par2rw.Packet{SetID: low.SetID, Type: par2rw.TypeRecv, Body: body})
+	var unknown [16]byte
+	copy(unknown[:], "PAR 2.0\x00Padding\x00")
+	for i := 0; i < 40; i++ {
+		out = append(out, par2rw.Packet{SetID: low.SetID, Type: unknown, Body: make([]byte, 4096)})
+	}
+	os.WriteFile(filepath.Join(dir, "set.aa-other.par2"), par2rw.Serialize(out), 0644)
+}
 
 // c12SpoilHighestBlock rewrites the recovery packet with the highest
 // exponent found in dir with a different payload and a fresh packet hash.
